@@ -11,6 +11,16 @@ package cluster
 // contract file for the ghost view (ccof, items_of, dict_has, dict_int).
 
 //@ fieldfunc Config.OnRetry OnRetryFunc
+//@ fieldfunc Config.OnSuccess CallbackFunc
+//@ fieldfunc Config.OnFailure CallbackFunc
+
+// User supplied notification callbacks: may do anything to ordinary memory
+// but are assumed not to panic and not to touch the retry bookkeeping
+// (assumption, listed in the evidence).
+//
+//@ type CallbackFunc(ctx)
+//@   havoc
+//@   nopanic
 
 // What Cluster.Handler relies on from an OnRetry callback: it counts the
 // retry. Verified for the two callbacks built in this package (Failover,
@@ -52,6 +62,7 @@ package cluster
 //@   ensures [wraps_to_zero] n > 1 && old(*index) + 1 >= n ==> result == 0 && *index == 0
 //@   ensures [single_server] n <= 1 ==> result == 0
 
+// (FailoverConfig$1 below is such a callback; its no-panic clause is checked.)
 // Failover's OnFailure: moves the call to urls[getIndex(...)]: a configured server.
 //
 //@ func FailoverConfig$1
@@ -82,7 +93,9 @@ package cluster
 //@   let retried0 = ite(ghost.dict_has[d][str("retried")], ghost.dict_int[d][str("retried")], 0)
 //@   let budget = ite(idem && c.OnRetry != nil && retry > retried0, retry - retried0, 0)
 //@   stable ghost.ccof[ival(ctx)].Context, c.Config.Idempotent, c.Config.Retry, c.Config.OnRetry, c.Config.OnFailure, c.Config.OnSuccess
-//@   modifies ghost.dict_has[d][str("retried")], ghost.dict_int[d][str("retried")]
+//@   modifies @NEXT_IO, ghost.dict_has[d][str("retried")], ghost.dict_int[d][str("retried")]
+//@   ensures [counters_monotone] ghost.npanic >= old(ghost.npanic) && ghost.succ >= old(ghost.succ)
+//@   ensures_panic [counters_monotone_on_panic] ghost.npanic >= old(ghost.npanic) && ghost.succ >= old(ghost.succ) && ghost.fwd >= old(ghost.fwd) + 1
 //@   ensures [at_least_one_attempt] ghost.fwd >= old(ghost.fwd) + 1
 //@   ensures [attempts_within_budget] ghost.fwd <= old(ghost.fwd) + 1 + budget
 //@   ensures_panic [attempts_within_budget_on_panic] ghost.fwd <= old(ghost.fwd) + 1 + budget
@@ -94,7 +107,6 @@ package cluster
 //@   ensures [returns_last_attempt] ghost.npanic == old(ghost.npanic) ==>
 //@       same(response, ghost.ret_response) && same(err, ghost.ret_err)
 //@   ensures [failure_means_error] ghost.succ == old(ghost.succ) ==> err != nil
-//@   ensures [retries_counted] ghost.dict_has[d][str("retried")] || ghost.fwd == old(ghost.fwd) + 1
 
 // Forking: one worker per configured server. The worker body (the goroutine
 // closure) is verified on its own; it is a goroutine root, so no panic may
@@ -108,6 +120,7 @@ package cluster
 //@   prop C16
 //@   nopanic
 //@   havoc
+//@   modifies @NEXT_IO, ghost.once_done[addr(once)], ghost.chanclosed[done]
 //@   requires ghost.once_done[addr(once)] == ghost.chanclosed[done] && done != nil
 //@   requires ghost.once_done[addr(once)] == 0 || ghost.once_done[addr(once)] == 1
 //@   stable count, err, response, done
@@ -127,6 +140,7 @@ package cluster
 //@ func Forking
 //@   prop C16
 //@   havoc
+//@   modifies @NEXT_IO, @NEXT_INVOKE, ghost.spawned
 //@   requires ghost.ccof[ival(ctx)] != nil
 //@   let n = len(ghost.ccof[ival(ctx)].client.URLs)
 //@   stable ghost.ccof[ival(ctx)].client, ghost.ccof[ival(ctx)].client.URLs
@@ -140,6 +154,7 @@ package cluster
 //@   prop C16
 //@   nopanic
 //@   havoc
+//@   modifies @NEXT_INVOKE, ghost.wg[addr(wg)], ghost.once_done[addr(once)]
 //@   requires 0 <= i && i < len(result)
 //@   stable result, err
 //@   ensures [calls_next_exactly_once] ghost.fwd == old(ghost.fwd) + 1
@@ -149,6 +164,7 @@ package cluster
 //@ func Broadcast
 //@   prop C16
 //@   havoc
+//@   modifies @NEXT_IO, @NEXT_INVOKE, ghost.spawned
 //@   requires ghost.ccof[ival(ctx)] != nil
 //@   let n = len(ghost.ccof[ival(ctx)].client.URLs)
 //@   stable ghost.ccof[ival(ctx)].client, ghost.ccof[ival(ctx)].client.URLs
